@@ -77,3 +77,8 @@ class StateTuple:
 
     def __setstate__(self, st):
         self.x = st[0]
+
+
+class ListSub(list):
+    """a list subclass: the pickler creates it through a call and fills it with APPENDS"""
+    pass
